@@ -441,17 +441,203 @@ theorem Apply_ops_cf (c : ACtx) (afs : List Doc) (s s' : AState) (upd : List (St
         · cases h
     · cases h
 
+/-! ### checkPaths: the up-front conflict test over the literal paths of the update -/
+
+/-- the executable test (with the paths `seen` already inserted) finds nothing iff no inserted path
+    is related to a listed one and the listed ones are pairwise unrelated. -/
+theorem pathsConflict_false_iff (seen : List Path) (ps : List String) :
+    pathsConflict seen ps = false ↔
+      (∀ rp ∈ seen, ∀ q ∈ ps, related rp (splitPath q) = false) ∧
+        ps.Pairwise (fun a b => related (splitPath a) (splitPath b) = false) := by
+  induction ps generalizing seen with
+  | nil => simp [pathsConflict]
+  | cons path r ih =>
+    unfold pathsConflict
+    simp only []
+    split
+    · rename_i hany
+      simp only [List.any_eq_true] at hany
+      obtain ⟨rp, hrp, hrel⟩ := hany
+      constructor
+      · intro h; cases h
+      · intro h
+        have := h.1 rp hrp path List.mem_cons_self
+        unfold related at this
+        rw [this] at hrel; cases hrel
+    · rename_i hany
+      simp only [List.any_eq_true, not_exists, not_and, Bool.not_eq_true] at hany
+      rw [ih, List.pairwise_cons]
+      constructor
+      · rintro ⟨h1, h2⟩
+        refine ⟨?_, ?_, h2⟩
+        · intro rp hrp q hq
+          rcases List.mem_cons.mp hq with e | hq
+          · subst e; exact hany rp hrp
+          · exact h1 rp (List.mem_append_left _ hrp) q hq
+        · intro q hq
+          exact h1 _ (List.mem_append_right _ (List.mem_singleton.mpr rfl)) q hq
+      · rintro ⟨h1, h2, h3⟩
+        refine ⟨?_, h3⟩
+        intro rp hrp q hq
+        rcases List.mem_append.mp hrp with hrp | hrp
+        · exact h1 rp hrp q (List.mem_cons_of_mem _ hq)
+        · rw [List.mem_singleton.mp hrp]; exact h2 q hq
+
+/-- the declarative conflict statement: two paths of the list, at positions `i < j`, are
+    segment-wise prefix-related (one is a prefix of the other; equal paths included). -/
+def PrefixRelatedPair (ps : List String) : Prop :=
+  ∃ (i j : Nat) (p q : String), i < j ∧ ps[i]? = some p ∧ ps[j]? = some q ∧
+    (isPrefixOf (splitPath p) (splitPath q) = true ∨ isPrefixOf (splitPath q) (splitPath p) = true)
+
+/-- `pathsConflict_iff`: the executable test of `checkPaths` (starting from the empty tree) fires
+    exactly when two listed paths are prefix-related. -/
+theorem pathsConflict_iff (ps : List String) : pathsConflict [] ps = true ↔ PrefixRelatedPair ps := by
+  constructor
+  · intro h
+    have hnp : ¬ ps.Pairwise (fun a b => related (splitPath a) (splitPath b) = false) := by
+      intro hp
+      have := (pathsConflict_false_iff [] ps).mpr ⟨fun rp hrp => (nomatch hrp), hp⟩
+      rw [this] at h; cases h
+    rw [List.pairwise_iff_getElem] at hnp
+    simp only [Classical.not_forall] at hnp
+    obtain ⟨i, j, hi, hj, hij, hr⟩ := hnp
+    refine ⟨i, j, ps[i], ps[j], hij, List.getElem?_eq_getElem hi, List.getElem?_eq_getElem hj, ?_⟩
+    simp only [related, Bool.not_eq_false, Bool.or_eq_true] at hr
+    exact hr
+  · rintro ⟨i, j, p, q, hij, hp, hq, hr⟩
+    cases hc : pathsConflict [] ps with
+    | true => rfl
+    | false =>
+      have := ((pathsConflict_false_iff [] ps).mp hc).2
+      rw [List.pairwise_iff_getElem] at this
+      obtain ⟨hi, ei⟩ := List.getElem?_eq_some_iff.mp hp
+      obtain ⟨hj, ej⟩ := List.getElem?_eq_some_iff.mp hq
+      have h := this i j hi hj hij
+      rw [ei, ej] at h
+      simp only [related, Bool.or_eq_false_iff] at h
+      rcases hr with hr | hr
+      · rw [h.1] at hr; cases hr
+      · rw [h.2] at hr; cases hr
+
+/-- `Apply` rejects (plain error) when the test fires — whatever the document, the context and
+    the array filters, and before any operator runs. -/
+theorem Apply_conflict (c : ACtx) (d u : Doc) (afs : List Doc)
+    (h : pathsConflict [] (updatePaths u) = true) : Apply c d u afs = .error .err := by
+  unfold Apply
+  split
+  · rfl
+  · first | rfl | rw [if_pos h]
+
+/-- a successful `Apply` passed the test. -/
+theorem Apply_ok_noconflict (c : ACtx) (d u : Doc) (afs : List Doc) (r : Doc × List (String × V))
+    (h : Apply c d u afs = .ok r) : pathsConflict [] (updatePaths u) = false := by
+  cases hc : pathsConflict [] (updatePaths u) with
+  | false => rfl
+  | true => rw [Apply_conflict c d u afs hc] at h; cases h
+
+/-- past the two up-front checks `Apply` is the operator loop on the fresh state. -/
+theorem Apply_eq_ops (c : ACtx) (d u : Doc) (afs : List Doc) (he : u.isEmpty = false)
+    (hc : pathsConflict [] (updatePaths u) = false) :
+    Apply c d u afs =
+      match Apply.ops c afs { doc := d, changed := [] } u with
+      | .error e => .error e
+      | .ok s => .ok (s.doc, s.changed) := by
+  unfold Apply
+  simp only [he, hc, Bool.false_eq_true, if_false]
+  rfl
+
+/-- a successful `Apply` is a successful run of the operator loop on the fresh state. -/
+theorem Apply_ok_ops (c : ACtx) (d u : Doc) (afs : List Doc) (d' : Doc) (ch : List (String × V))
+    (h : Apply c d u afs = .ok (d', ch)) :
+    ∃ s, Apply.ops c afs { doc := d, changed := [] } u = .ok s ∧ s.doc = d' ∧ s.changed = ch := by
+  have hc := Apply_ok_noconflict c d u afs _ h
+  have he : u.isEmpty = false := by
+    cases he : u.isEmpty with
+    | false => rfl
+    | true => unfold Apply at h; rw [if_pos he] at h; cases h
+  rw [Apply_eq_ops c d u afs he hc] at h
+  split at h
+  · cases h
+  · rename_i s hs
+    cases h
+    exact ⟨s, hs, rfl, rfl⟩
+
+/-- an accepted update: its literal paths are pairwise unrelated. -/
+theorem Apply_ok_pairwise (c : ACtx) (d u : Doc) (afs : List Doc) (r : Doc × List (String × V))
+    (h : Apply c d u afs = .ok r) :
+    (updatePaths u).Pairwise fun a b => related (splitPath a) (splitPath b) = false :=
+  ((pathsConflict_false_iff [] _).mp (Apply_ok_noconflict c d u afs r h)).2
+
+/-- an accepted update: no two literal paths (positions i < j) are prefix-related. -/
+theorem Apply_ok_unrelated (c : ACtx) (d u : Doc) (afs : List Doc) (r : Doc × List (String × V))
+    (h : Apply c d u afs = .ok r) (i j : Nat) (p q : String) (hij : i < j)
+    (hp : (updatePaths u)[i]? = some p) (hq : (updatePaths u)[j]? = some q) :
+    isPrefixOf (splitPath p) (splitPath q) = false ∧ isPrefixOf (splitPath q) (splitPath p) = false := by
+  have hc := Apply_ok_noconflict c d u afs r h
+  cases h1 : isPrefixOf (splitPath p) (splitPath q) with
+  | true =>
+    rw [(pathsConflict_iff _).mpr ⟨i, j, p, q, hij, hp, hq, .inl h1⟩] at hc; cases hc
+  | false =>
+    cases h2 : isPrefixOf (splitPath q) (splitPath p) with
+    | true =>
+      rw [(pathsConflict_iff _).mpr ⟨i, j, p, q, hij, hp, hq, .inr h2⟩] at hc; cases hc
+    | false => exact ⟨rfl, rfl⟩
+
+theorem fieldPaths_key_mem (op : String) (fields : List (String × V)) (key : String) (v : V)
+    (hf : (key, v) ∈ fields) : key ∈ fieldPaths op fields := by
+  induction fields with
+  | nil => cases hf
+  | cons kv r ih =>
+    obtain ⟨k, x⟩ := kv
+    unfold fieldPaths
+    rcases List.mem_cons.mp hf with e | hm
+    · cases e
+      apply List.mem_append_left
+      split
+      · split <;> exact List.mem_cons_self
+      · exact List.mem_cons_self
+    · exact List.mem_append_right _ (ih hm)
+
+theorem fieldPaths_target_mem (fields : List (String × V)) (key target : String)
+    (hf : (key, V.str target) ∈ fields) : target ∈ fieldPaths "$rename" fields := by
+  induction fields with
+  | nil => cases hf
+  | cons kv r ih =>
+    obtain ⟨k, x⟩ := kv
+    unfold fieldPaths
+    rcases List.mem_cons.mp hf with e | hm
+    · cases e
+      apply List.mem_append_left
+      simp
+    · exact List.mem_append_right _ (ih hm)
+
+theorem updatePaths_fields_sub (u : Doc) (op : String) (fields : List (String × V))
+    (ho : (op, V.doc fields) ∈ u) : ∀ p ∈ fieldPaths op fields, p ∈ updatePaths u := by
+  induction u with
+  | nil => cases ho
+  | cons kv r ih =>
+    obtain ⟨k, x⟩ := kv
+    intro p hp
+    unfold updatePaths
+    rcases List.mem_cons.mp ho with e | hm
+    · cases e
+      exact List.mem_append_left _ hp
+    · exact List.mem_append_right _ (ih hm p hp)
+
+theorem updatePaths_key_mem (u : Doc) (op : String) (fields : List (String × V)) (key : String) (v : V)
+    (ho : (op, V.doc fields) ∈ u) (hf : (key, v) ∈ fields) : key ∈ updatePaths u :=
+  updatePaths_fields_sub u op fields ho _ (fieldPaths_key_mem op fields key v hf)
+
+theorem updatePaths_rename_target_mem (u : Doc) (fields : List (String × V)) (key target : String)
+    (ho : ("$rename", V.doc fields) ∈ u) (hf : (key, V.str target) ∈ fields) : target ∈ updatePaths u :=
+  updatePaths_fields_sub u "$rename" fields ho _ (fieldPaths_target_mem fields key target hf)
+
 /-- `record_conflict_free`: the paths recorded by a successful Apply are pairwise not prefix-related. -/
 theorem Apply_cf (c : ACtx) (d u : Doc) (afs : List Doc) (d' : Doc) (ch : List (String × V))
     (h : Apply c d u afs = .ok (d', ch)) : ConflictFree ch := by
-  unfold Apply at h
-  split at h
-  · cases h
-  · split at h
-    · cases h
-    · rename_i s hs
-      cases h
-      exact Apply_ops_cf _ _ _ _ _ hs List.Pairwise.nil
+  obtain ⟨s, hs, _, e⟩ := Apply_ok_ops c d u afs d' ch h
+  subst e
+  exact Apply_ops_cf _ _ _ _ _ hs List.Pairwise.nil
 
 /-! ### recorded changes hold in the result (single-write operators) -/
 
@@ -555,14 +741,24 @@ theorem resolve_plain (sch : SchemaEval) (n : Nat) (key : String) (doc : Doc) (a
   rw [hs]
   rfl
 
+/-- an update of one operator other than `$rename` on one path passes `checkPaths`. -/
+theorem single_noconflict (op key : String) (v : V) (h : op ≠ "$rename") :
+    pathsConflict [] (updatePaths [(op, .doc [(key, v)])]) = false := by
+  have hb : (op == "$rename") = false := by simpa using h
+  have : updatePaths [(op, .doc [(key, v)])] = [key] := by
+    simp only [updatePaths, fieldPaths, hb, Bool.false_eq_true, if_false, List.append_nil]
+    split <;> rfl
+  rw [this]
+  simp [pathsConflict]
+
 theorem Apply_single (c : ACtx) (d : Doc) (op key : String) (v : V) (afs : List Doc)
-    (h1 : isOpKey op = true) (h2 : knownUpdateOp op = true) (h3 : noDollar key = true) :
+    (h1 : isOpKey op = true) (h2 : knownUpdateOp op = true) (h3 : noDollar key = true)
+    (hc : pathsConflict [] (updatePaths [(op, .doc [(key, v)])]) = false) :
     Apply c d [(op, .doc [(key, v)])] afs =
       match applyOp c { doc := d, changed := [] } op key v with
       | .error e => .error e
       | .ok s => .ok (s.doc, s.changed) := by
-  unfold Apply
-  simp only [List.isEmpty_cons, Bool.false_eq_true, if_false]
+  rw [Apply_eq_ops c d _ afs rfl hc]
   unfold Apply.ops
   simp only [h1, h2, if_true, Bool.not_true, Bool.false_eq_true, if_false]
   unfold Apply.conds
@@ -602,7 +798,11 @@ theorem Apply_idem_single (c : ACtx) (d : Doc) (op key : String) (v : V) (afs : 
     (h : Apply c d [(op, .doc [(key, v)])] afs = .ok (d1, ch1)) :
     ∃ ch2, Apply c d1 [(op, .doc [(key, v)])] afs = .ok (d1, ch2) := by
   obtain ⟨k1, k2⟩ := idemOps_known hop
-  rw [Apply_single _ _ _ _ _ _ k1 k2 hk] at h ⊢
+  have hnr : op ≠ "$rename" := by
+    intro e; subst e
+    simp [idemOps] at hop
+  have hc := single_noconflict op key v hnr
+  rw [Apply_single _ _ _ _ _ _ k1 k2 hk hc] at h ⊢
   split at h
   · cases h
   · rename_i s1 hs1
